@@ -62,7 +62,7 @@ def run_external(smt2, which, timeout=60):
     if which == 'z3-old':
         cmd = ['/usr/bin/z3', '-in', '-T:%d' % timeout]
     elif which == 'cvc5':
-        cmd = ['cvc5', '--lang', 'smt2', '--tlimit=%d' % (timeout * 1000)]
+        cmd = ['cvc5', '--lang', 'smt2', '--strings-exp', '--tlimit=%d' % (timeout * 1000)]
     else:
         raise ValueError(which)
     try:
